@@ -24,7 +24,9 @@ ID = "C18"
 LEVEL = "fault_enumeration"
 RULE = ("one run = one in-process execution of main() of one of the four "
         "tools with argv = grammar-generated command line + 0-3 mutations "
-        "(drop/duplicate/swap tokens, boundary numbers, unknown options, "
+        "(drop/duplicate/swap tokens, boundary numbers and other spellings "
+        "of numbers: control characters that int() strips, digit "
+        "separators, other bases, inf/1e999, unknown options, "
         "misplaced options, second sub-command, dangling -T, bad files), "
         "over a simulated file system whose input files cover every fault "
         "kind; for the 'files' config every file-fault kind is enumerated "
